@@ -5,6 +5,7 @@ Purely structural: which rows of which tables the rows of the new state and of t
 import JaxleyVerif.Model.Sim
 import JaxleyVerif.Props.C08_Sim
 import JaxleyVerif.Props.C09_Sim
+import JaxleyVerif.Lemmas.CableLength
 
 namespace JaxleyVerif.Props.Sim
 open JaxleyVerif JaxleyVerif.Model JaxleyVerif.Model.Step
@@ -513,6 +514,429 @@ theorem sim_step_cell_independent (m m' : SimModule) (solver : String) (dt : Flo
 
 end step
 
+section rows
+open JaxleyVerif.Model.Cable
+
+/-! ### 6. the rows of cell `k` after one step and after a run -/
+
+/-- the cell solvers return one voltage per compartment for this (module, solver): implicit solvers always, forward Euler
+when no cell has a branch point (otherwise the code refuses to run, see `Sim.accepts`) -/
+def solverOkB (m : SimModule) (solver : String) : Bool :=
+  solver == "bwd_euler" || solver == "crank_nicolson" || !Model.Sim.refusesFwd m
+
+/-- `cellOffsets` are the running sums of the cells' compartment counts -/
+def offsetsOkB (m : SimModule) : Bool :=
+  (List.range m.cells.length).all (fun k =>
+    (Model.Sim.cellOffsets m).getD k 0 ==
+      ((List.range k).map (fun j => nTotal (m.cells.getD j ([], [])).2)).foldl (· + ·) 0)
+
+theorem solveCell_length (solver : String) (dt : Float) (c : CellIn Float)
+    (h : solver = "bwd_euler" ∨ solver = "crank_nicolson" ∨ (stepFwd c dt).isSome = true) :
+    (solveCell solver dt c).length = nTotal c.ncomp := by
+  unfold solveCell
+  split
+  · exact stepBwd_length c dt
+  · exact stepCN_length c dt
+  · rename_i h1 h2
+    rcases h with h | h | h
+    · exact absurd h h1
+    · exact absurd h h2
+    · obtain ⟨l, hl⟩ := Option.isSome_iff_exists.mp h
+      rw [hl]
+      exact stepFwd_length c dt l hl
+
+theorem block_length (m : SimModule) (solver : String) (dt : Float) (u : State Float) (exts : List (Ext Float)) (k : Nat)
+    (hs : solverOkB m solver = true) (hk : k < m.cells.length) :
+    (stepBlock m solver dt u exts k).length = nTotal (m.cells.getD k ([], [])).2 := by
+  unfold stepBlock
+  rw [solveCell_length]
+  · rfl
+  · unfold solverOkB at hs
+    simp only [Bool.or_eq_true, beq_iff_eq, Bool.not_eq_true'] at hs
+    rcases hs with (h | h) | h
+    · exact Or.inl h
+    · exact Or.inr (Or.inl h)
+    · right; right
+      rw [stepFwd_isSome]
+      unfold Model.Sim.refusesFwd at h
+      have := (List.any_eq_false.mp h) (m.cells.getD k ([], [])) (by
+        rw [List.getD_eq_getElem?_getD, List.getElem?_eq_getElem hk]
+        exact List.getElem_mem hk)
+      simp only [Bool.not_eq_true] at this
+      show (!(compEdges (m.cells.getD k ([], [])).1 (m.cells.getD k ([], [])).2).any (fun e => e.2.2 != 0)) = true
+      rw [this]
+      rfl
+
+theorem flatMap_range_length (f : Nat → List Float) (g : Nat → Nat) (n : Nat) (h : ∀ j, j < n → (f j).length = g j) :
+    ((List.range n).flatMap f).length = ((List.range n).map g).foldl (· + ·) 0 := by
+  induction n with
+  | zero => rfl
+  | succ n ih =>
+    rw [List.range_succ, List.flatMap_append, List.length_append, List.map_append, List.foldl_append,
+      ih (fun j hj => h j (Nat.lt_succ_of_lt hj))]
+    simp [h n (Nat.lt_succ_self n)]
+
+theorem flatMap_range_get (f : Nat → List Float) (g : Nat → Nat) (n : Nat) (h : ∀ j, j < n → (f j).length = g j)
+    (k : Nat) (hk : k < n) (i : Nat) (hi : i < g k) :
+    ((List.range n).flatMap f)[((List.range k).map g).foldl (· + ·) 0 + i]? = (f k)[i]? := by
+  induction n with
+  | zero => omega
+  | succ n ih =>
+    rw [List.range_succ, List.flatMap_append]
+    by_cases hkn : k < n
+    · have ih' := ih (fun j hj => h j (Nat.lt_succ_of_lt hj)) hkn
+      have hsome : (f k)[i]? = some ((f k)[i]'(by rw [h k hk]; exact hi)) := List.getElem?_eq_getElem _
+      rw [hsome] at ih'
+      have hlt := (List.getElem?_eq_some_iff.mp ih').1
+      rw [List.getElem?_append_left hlt, ih', hsome]
+    · have hkn' : k = n := by omega
+      subst hkn'
+      rw [List.getElem?_append_right (by
+        rw [flatMap_range_length f g k (fun j hj => h j (Nat.lt_succ_of_lt hj))]; omega),
+        flatMap_range_length f g k (fun j hj => h j (Nat.lt_succ_of_lt hj))]
+      simp
+
+/-- (C12) **row `off_k + i` of the new voltage array is entry `i` of cell `k`'s block** -/
+theorem v_row_block (m : SimModule) (solver : String) (dt : Float) (u : State Float) (exts : List (Ext Float))
+    (hm : m.syns = []) (hke : ∀ e ∈ exts, e.key = "i") (hs : solverOkB m solver = true) (hoff : offsetsOkB m = true)
+    (k : Nat) (hk : k < m.cells.length) (i : Nat) (hi : i < nTotal (m.cells.getD k ([], [])).2) :
+    (getArr (Model.Sim.step m solver dt u exts) "v")[(Model.Sim.cellOffsets m).getD k 0 + i]? =
+      (stepBlock m solver dt u exts k)[i]? := by
+  rw [sim_step_v_blocks m solver dt u exts hm hke]
+  have ho : (Model.Sim.cellOffsets m).getD k 0 =
+      ((List.range k).map (fun j => nTotal (m.cells.getD j ([], [])).2)).foldl (· + ·) 0 := by
+    unfold offsetsOkB at hoff
+    have := (List.all_eq_true.mp hoff) k (List.mem_range.mpr hk)
+    simpa using this
+  rw [ho]
+  exact flatMap_range_get _ _ _ (fun j hj => block_length m solver dt u exts j hs hj) k hk i hi
+
+/-! #### the membrane currents stored as states by `_channel_currents`, row by row -/
+
+/-- the name under which a channel's current is stored -/
+def cnameOf (name pfx : String) : String := (Gen.dispatchStr (name ++ ".current_name") pfx).getD ("i_" ++ pfx)
+
+/-- the current of one channel in one row -/
+def i0Fn (name pfx : String) (vj : Float) (st pr : String → Float) : Float :=
+  Model.Sim.kernel1 (name ++ ".compute_current") pfx #[vj] st pr
+
+/-- row `j` of the current arrays of an accumulator, with their names -/
+def curRow (acc : CCAcc) (j : Nat) : List (String × Option Float) := acc.2.2.map (fun p => (p.1, p.2[j]?))
+
+theorem curRow_inner (m : SimModule) (u : State Float) (v : List Float) (c : Model.Sim.Chan) (cname : String) (j : Nat) :
+    ∀ (L : List Nat) (acc : CCAcc), curRow (L.foldl (ccInner m u v c cname) acc) j =
+      (curRow acc j).map (fun q => (q.1, (L.filter (· == j)).foldl (fun o _ =>
+        if q.1 == cname then o.map (· + i0Fn c.name c.pfx (v.getD j Model.Sim.nan) (Model.Sim.stateAt u j)
+          (Model.Sim.nodeParamAt m j)) else o) q.2)) := by
+  intro L
+  induction L with
+  | nil => intro acc; simp
+  | cons i t ih =>
+    intro acc
+    rw [List.foldl_cons, ih]
+    have h1 : curRow (ccInner m u v c cname acc i) j = (curRow acc j).map (fun q =>
+        (q.1, if i = j ∧ (q.1 == cname) = true then q.2.map (· + i0Fn c.name c.pfx (v.getD i Model.Sim.nan)
+          (Model.Sim.stateAt u i) (Model.Sim.nodeParamAt m i)) else q.2)) := by
+      unfold curRow ccInner i0Fn
+      simp only [List.map_map]
+      apply List.map_congr_left
+      intro p _
+      simp only [Function.comp]
+      by_cases hp : (p.1 == cname) = true
+      · simp only [hp, if_true, Array.getElem?_modify, and_true]
+      · have hp' : (p.1 == cname) = false := by simpa using hp
+        simp [hp']
+    rw [h1, List.map_map]
+    apply List.map_congr_left
+    intro q _
+    simp only [Function.comp, List.filter_cons]
+    by_cases hij : i = j
+    · subst hij
+      simp only [beq_self_eq_true, if_true, true_and, List.foldl_cons]
+    · have hb : (i == j) = false := by simpa using hij
+      simp only [hb, hij, false_and, if_false, Bool.false_eq_true]
+
+theorem curRow_outer (m : SimModule) (u : State Float) (v : List Float) (j : Nat) :
+    ∀ (cs : List Model.Sim.Chan) (acc : CCAcc), curRow (cs.foldl (ccOuter m u v) acc) j =
+      (curRow acc j).map (fun q => (q.1, cs.foldl (fun o c =>
+        if c.member.getD j false && q.1 == cnameOf c.name c.pfx then
+          o.map (· + i0Fn c.name c.pfx (v.getD j Model.Sim.nan) (Model.Sim.stateAt u j) (Model.Sim.nodeParamAt m j))
+        else o) q.2)) := by
+  intro cs
+  induction cs with
+  | nil => intro acc; simp
+  | cons c t ih =>
+    intro acc
+    rw [List.foldl_cons, ih]
+    have h1 : curRow (ccOuter m u v acc c) j = (curRow acc j).map (fun q => (q.1,
+        if c.member.getD j false && q.1 == cnameOf c.name c.pfx then
+          q.2.map (· + i0Fn c.name c.pfx (v.getD j Model.Sim.nan) (Model.Sim.stateAt u j) (Model.Sim.nodeParamAt m j))
+        else q.2)) := by
+      unfold ccOuter
+      rw [curRow_inner, members_filter]
+      apply List.map_congr_left
+      intro q _
+      cases c.member.getD j false
+      · simp
+      · simp only [if_true, List.foldl_cons, List.foldl_nil, Bool.true_and]
+        rfl
+    rw [h1, List.map_map]
+    apply List.map_congr_left
+    intro q _
+    simp only [Function.comp, List.foldl_cons]
+
+theorem Row_setArr (u : State Float) (k : String) (a : List Float) (j : Nat) (k' : String) :
+    Row (setArr u k a) j k' = if k' = k then a[j]? else Row u j k' := by
+  unfold Row
+  by_cases h : k' = k
+  · subst h; rw [C08.getArr_setArr, if_pos rfl]
+  · rw [getArr_setArr_ne _ _ _ _ h, if_neg h]
+
+/-- the entry of the LAST pair with name `k'` (the write that wins), `dflt` if there is none -/
+def lastRow (rows : List (String × Option Float)) (k' : String) (dflt : Option Float) : Option Float :=
+  rows.foldl (fun o q => if q.1 == k' then q.2 else o) dflt
+
+theorem Row_fold_setArr_pairs (j : Nat) (k' : String) : ∀ (L : List (String × Array Float)) (u : State Float),
+    Row (L.foldl (fun u p => setArr u p.1 p.2.toList) u) j k' =
+      lastRow (L.map (fun p => (p.1, p.2[j]?))) k' (Row u j k') := by
+  intro L
+  induction L with
+  | nil => intro u; rfl
+  | cons p t ih =>
+    intro u
+    rw [List.foldl_cons, ih, Row_setArr]
+    unfold lastRow
+    simp only [List.map_cons, List.foldl_cons, Array.getElem?_toList]
+    congr 1
+    by_cases h : p.1 = k'
+    · simp [h]
+    · have h' : ¬ k' = p.1 := fun he => h he.symm
+      simp [h, h']
+
+/-- `membrane_current_names` as a function of the channels' (class, prefix) list -/
+def namesOf (ts : List (String × String × Bool)) : List String :=
+  ts.foldl (fun acc t => if acc.contains (cnameOf t.1 t.2.1) then acc else acc ++ [cnameOf t.1 t.2.1]) []
+
+theorem currentNames_eq (m : SimModule) (j : Nat) :
+    Model.Sim.currentNames m = namesOf (m.chans.map (fun c => (c.name, c.pfx, c.member.getD j false))) := by
+  unfold Model.Sim.currentNames namesOf
+  rw [List.foldl_map]
+  rfl
+
+/-- row `j` of the current arrays `_channel_currents` writes, as a function of the row's data -/
+def curRowsFn (ts : List (String × String × Bool)) (inRange : Bool) (vj : Float) (st pr : String → Float) :
+    List (String × Option Float) :=
+  (namesOf ts).map (fun nm => (nm, ts.foldl (fun o t =>
+    if t.2.2 && nm == cnameOf t.1 t.2.1 then o.map (· + i0Fn t.1 t.2.1 vj st pr) else o)
+    (if inRange then some 0.0 else none)))
+
+/-- (C12) **row `j` of the state after `_channel_currents`**: the current arrays receive, per name, `0.0` plus the currents of
+the channels that contain row `j` and store their current under that name; every other state keeps its row -/
+theorem Row_channelCurrents (m : SimModule) (u : State Float) (j : Nat) (k' : String) :
+    Row (Model.Sim.channelCurrents m u).1 j k' =
+      lastRow (curRowsFn (m.chans.map (fun c => (c.name, c.pfx, c.member.getD j false)))
+        (decide (j < Model.Sim.ncompTotal m)) ((getArr u "v").getD j Model.Sim.nan)
+        (fun k => (Row u j k).getD Model.Sim.nan) (Model.Sim.nodeParamAt m j)) k' (Row u j k') := by
+  have h0 : (Model.Sim.channelCurrents m u).1 =
+      (m.chans.foldl (ccOuter m u (getArr u "v")) (ccInit m)).2.2.foldl (fun u p => setArr u p.1 p.2.toList) u := rfl
+  rw [h0, Row_fold_setArr_pairs]
+  have h1 := curRow_outer m u (getArr u "v") j m.chans (ccInit m)
+  unfold curRow at h1
+  rw [h1]
+  congr 1
+  unfold curRowsFn ccInit
+  rw [← currentNames_eq m j, List.map_map, List.map_map]
+  apply List.map_congr_left
+  intro nm _
+  simp only [Function.comp, List.foldl_map, stateAt_eq_row]
+  congr 1
+  by_cases hj : j < Model.Sim.ncompTotal m <;> simp [hj]
+
+/-- (C12) the state returned by one step (module without synapses, stimuli as the only externals), written out -/
+theorem sim_step_state (m : SimModule) (solver : String) (dt : Float) (u : State Float) (exts : List (Ext Float))
+    (hm : m.syns = []) (hk : ∀ e ∈ exts, e.key = "i") :
+    Model.Sim.step m solver dt u exts =
+      setArr (setArr (setArr (Model.Sim.channelCurrents m (Model.Sim.stepChannelsState m dt u)).1
+        Model.Sim.keyGm (gmOf m dt u)) Model.Sim.keyKm (kmOf m dt u)) "v"
+        ((List.range m.cells.length).flatMap (stepBlock m solver dt u exts)) := by
+  have hk' : ∀ e ∈ exts.map (toLocal m), e.key = "i" := by
+    intro e he
+    obtain ⟨e', he', rfl⟩ := List.mem_map.mp he
+    exact hk e' he'
+  have hnov : ∀ e ∈ exts.map (toLocal m), e.key ≠ "v" := by
+    intro e he h
+    rw [hk' e he] at h
+    exact absurd h (by decide)
+  rw [sim_step_eq]
+  show clampV (setArr (clampStates _ _) "v" _) _ = _
+  rw [clampV_no_v _ _ hnov, clampStates_only_i _ _ hk', sim_solve_cellwise, sim_no_synapses m hm]
+  have hne : Model.Sim.keyGm ≠ Model.Sim.keyKm := by decide
+  rw [C08.getArr_setArr, getArr_setArr_ne _ _ _ _ hne, C08.getArr_setArr]
+  rfl
+
+theorem getElem?_of_getD (l : List Float) (r : Nat) (h : r < l.length) : l[r]? = some (l.toArray.getD r 0.0) := by
+  simp [Array.getD_eq_getD_getElem?, h]
+
+/-- the static data of a row: per channel (class, prefix, membership flag of the row) and the parameter row -/
+def rowStatic (m : SimModule) (r : Nat) : List (String × String × Bool) × (String → Float) :=
+  (m.chans.map (fun c => (c.name, c.pfx, c.member.getD r false)), Model.Sim.nodeParamAt m r)
+
+theorem rowData_eq (m : SimModule) (u : State Float) (r : Nat) :
+    rowData m u r = ((rowStatic m r).1, (rowStatic m r).2, Row u r) := rfl
+
+/-- the static hypotheses of cell independence, for cell `k` of two modules -/
+structure CellAgree (m m' : SimModule) (solver : String) (k : Nat) : Prop where
+  syn : m.syns = []
+  syn' : m'.syns = []
+  sol : solverOkB m solver = true
+  sol' : solverOkB m' solver = true
+  off : offsetsOkB m = true
+  off' : offsetsOkB m' = true
+  hk : k < m.cells.length
+  hk' : k < m'.cells.length
+  cell : m.cells.getD k ([], []) = m'.cells.getD k ([], [])
+  inb : (Model.Sim.cellOffsets m).getD k 0 + nTotal (m.cells.getD k ([], [])).2 ≤ Model.Sim.ncompTotal m
+  inb' : (Model.Sim.cellOffsets m').getD k 0 + nTotal (m.cells.getD k ([], [])).2 ≤ Model.Sim.ncompTotal m'
+  rows : ∀ i, i < nTotal (m.cells.getD k ([], [])).2 →
+    m.comps.getD ((Model.Sim.cellOffsets m).getD k 0 + i) default =
+      m'.comps.getD ((Model.Sim.cellOffsets m').getD k 0 + i) default ∧
+    rowStatic m ((Model.Sim.cellOffsets m).getD k 0 + i) = rowStatic m' ((Model.Sim.cellOffsets m').getD k 0 + i)
+
+/-- the stimuli of one step agree on the rows of cell `k` (and there are no other externals) -/
+def StimAgree (m m' : SimModule) (k : Nat) (exts exts' : List (Ext Float)) : Prop :=
+  (∀ e ∈ exts, e.key = "i") ∧ (∀ e ∈ exts', e.key = "i") ∧
+  ∀ i, i < nTotal (m.cells.getD k ([], [])).2 →
+    (exts.map (toLocal m)).map (fun e => (e.key, valsAt e ((Model.Sim.cellOffsets m).getD k 0 + i))) =
+      (exts'.map (toLocal m')).map (fun e => (e.key, valsAt e ((Model.Sim.cellOffsets m').getD k 0 + i)))
+
+/-- the rows of cell `k` of two states agree -/
+def RowsAgree (m m' : SimModule) (k : Nat) (u u' : State Float) : Prop :=
+  ∀ i, i < nTotal (m.cells.getD k ([], [])).2 →
+    Row u ((Model.Sim.cellOffsets m).getD k 0 + i) = Row u' ((Model.Sim.cellOffsets m').getD k 0 + i)
+
+/-- (C12) **after one step the full state rows of cell `k` depend on cell `k` only** (every state name: voltages, channel
+states, stored currents, the stored linearisation) -/
+theorem sim_step_rows_cell_independent (m m' : SimModule) (solver : String) (dt : Float) (k : Nat)
+    (hA : CellAgree m m' solver k) (u u' : State Float) (exts exts' : List (Ext Float))
+    (hS : StimAgree m m' k exts exts') (hR : RowsAgree m m' k u u') :
+    RowsAgree m m' k (Model.Sim.step m solver dt u exts) (Model.Sim.step m' solver dt u' exts') := by
+  obtain ⟨hke, hke', hst⟩ := hS
+  have hblock : stepBlock m solver dt u exts k = stepBlock m' solver dt u' exts' k := by
+    apply sim_step_cell_independent m m' solver dt u u' exts exts' k hA.cell hA.inb hA.inb'
+    intro i hi
+    refine ⟨(hA.rows i hi).1, ?_, hst i hi⟩
+    rw [rowData_eq, rowData_eq, (hA.rows i hi).2, hR i hi]
+  intro i hi
+  have hr : (Model.Sim.cellOffsets m).getD k 0 + i < Model.Sim.ncompTotal m := by have := hA.inb; omega
+  have hr' : (Model.Sim.cellOffsets m').getD k 0 + i < Model.Sim.ncompTotal m' := by have := hA.inb'; omega
+  have hd : rowData m u ((Model.Sim.cellOffsets m).getD k 0 + i) =
+      rowData m' u' ((Model.Sim.cellOffsets m').getD k 0 + i) := by
+    rw [rowData_eq, rowData_eq, (hA.rows i hi).2, hR i hi]
+  obtain ⟨hrow1, hg, hkm⟩ := rows_after_channels m m' dt u u' _ _ hr hr' hd
+  have hstat := (hA.rows i hi).2
+  have hch : m.chans.map (fun c => (c.name, c.pfx, c.member.getD ((Model.Sim.cellOffsets m).getD k 0 + i) false)) =
+      m'.chans.map (fun c => (c.name, c.pfx, c.member.getD ((Model.Sim.cellOffsets m').getD k 0 + i) false)) :=
+    congrArg Prod.fst hstat
+  have hpr : Model.Sim.nodeParamAt m ((Model.Sim.cellOffsets m).getD k 0 + i) =
+      Model.Sim.nodeParamAt m' ((Model.Sim.cellOffsets m').getD k 0 + i) := congrArg Prod.snd hstat
+  funext k'
+  rw [sim_step_state m solver dt u exts hA.syn hke, sim_step_state m' solver dt u' exts' hA.syn' hke']
+  simp only [Row_setArr]
+  by_cases hv : k' = "v"
+  · rw [if_pos hv, if_pos hv]
+    have h1 := v_row_block m solver dt u exts hA.syn hke hA.sol hA.off k hA.hk i hi
+    have h2 := v_row_block m' solver dt u' exts' hA.syn' hke' hA.sol' hA.off' k hA.hk' i (hA.cell ▸ hi)
+    rw [sim_step_v_blocks m solver dt u exts hA.syn hke] at h1
+    rw [sim_step_v_blocks m' solver dt u' exts' hA.syn' hke'] at h2
+    rw [h1, h2, hblock]
+  · rw [if_neg hv, if_neg hv]
+    by_cases hkm' : k' = Model.Sim.keyKm
+    · rw [if_pos hkm', if_pos hkm', getElem?_of_getD _ _ (by unfold kmOf; simpa using hr),
+        getElem?_of_getD _ _ (by unfold kmOf; simpa using hr'), hkm]
+    · rw [if_neg hkm', if_neg hkm']
+      by_cases hgm' : k' = Model.Sim.keyGm
+      · rw [if_pos hgm', if_pos hgm', getElem?_of_getD _ _ (by unfold gmOf; simpa using hr),
+          getElem?_of_getD _ _ (by unfold gmOf; simpa using hr'), hg]
+      · rw [if_neg hgm', if_neg hgm', Row_channelCurrents, Row_channelCurrents, hch, hpr, hrow1, v_of_row, v_of_row,
+          hrow1, decide_eq_true hr, decide_eq_true hr']
+
+/-- (C12) **a run is independent cell by cell**: starting from states whose rows of cell `k` agree, after any number of steps
+in which the stimuli delivered to cell `k`'s rows agree, the full state rows of cell `k` agree — whatever the other cells
+are, do and receive -/
+theorem sim_run_cell_independent (m m' : SimModule) (solver : String) (dt : Float) (k : Nat)
+    (hA : CellAgree m m' solver k) (E E' : List (List (Ext Float))) (hE : List.Forall₂ (StimAgree m m' k) E E')
+    (s s' : State Float) (hR : RowsAgree m m' k s s') :
+    RowsAgree m m' k (E.foldl (Model.Sim.step m solver dt) s) (E'.foldl (Model.Sim.step m' solver dt) s') := by
+  induction hE generalizing s s' with
+  | nil => exact hR
+  | cons hx _ ih =>
+    rw [List.foldl_cons, List.foldl_cons]
+    exact ih _ _ (sim_step_rows_cell_independent m m' solver dt k hA s s' _ _ hx hR)
+
+/-- (C12) `get_all_states` (the initial currents) is row-wise as well (module without synapses) -/
+theorem sim_init_rows_cell_independent (m m' : SimModule) (solver : String) (k : Nat) (hA : CellAgree m m' solver k)
+    (u u' : State Float) (hR : RowsAgree m m' k u u') :
+    RowsAgree m m' k (Model.Sim.initState m u) (Model.Sim.initState m' u') := by
+  have hi : ∀ (m : SimModule) (u : State Float), m.syns = [] →
+      Model.Sim.initState m u = (Model.Sim.channelCurrents m u).1 := by
+    intro m u hm
+    unfold Model.Sim.initState
+    simp only [sim_no_synapses_currents m hm]
+  rw [hi m u hA.syn, hi m' u' hA.syn']
+  intro i hi'
+  have hr : (Model.Sim.cellOffsets m).getD k 0 + i < Model.Sim.ncompTotal m := by have := hA.inb; omega
+  have hr' : (Model.Sim.cellOffsets m').getD k 0 + i < Model.Sim.ncompTotal m' := by have := hA.inb'; omega
+  have hstat := (hA.rows i hi').2
+  have hch : m.chans.map (fun c => (c.name, c.pfx, c.member.getD ((Model.Sim.cellOffsets m).getD k 0 + i) false)) =
+      m'.chans.map (fun c => (c.name, c.pfx, c.member.getD ((Model.Sim.cellOffsets m').getD k 0 + i) false)) :=
+    congrArg Prod.fst hstat
+  have hpr : Model.Sim.nodeParamAt m ((Model.Sim.cellOffsets m).getD k 0 + i) =
+      Model.Sim.nodeParamAt m' ((Model.Sim.cellOffsets m').getD k 0 + i) := congrArg Prod.snd hstat
+  funext k'
+  rw [Row_channelCurrents, Row_channelCurrents, hch, hpr, v_of_row, v_of_row, hR i hi', decide_eq_true hr,
+    decide_eq_true hr']
+
+/-- (C12) the same for the `stateAfter` of `integrate`: the rows of cell `k` after `n` steps of two simulations agree -/
+theorem sim_stateAfter_cell_independent (m m' : SimModule) (solver : String) (dt : Float) (k : Nat)
+    (hA : CellAgree m m' solver k) (u0 u0' : State Float) (hR : RowsAgree m m' k u0 u0')
+    (E E' : List (List (Ext Float))) (hE : List.Forall₂ (StimAgree m m' k) E E') (n : Nat) :
+    RowsAgree m m' k (stateAfter m solver dt u0 E n) (stateAfter m' solver dt u0' E' n) := by
+  unfold stateAfter
+  have hT : List.Forall₂ (StimAgree m m' k) (E.take n) (E'.take n) := by
+    induction hE generalizing n with
+    | nil => simp
+    | cons hx _ ih =>
+      cases n with
+      | zero => simp
+      | succ n => simpa using ⟨hx, ih n⟩
+  exact sim_run_cell_independent m m' solver dt k hA _ _ hT _ _
+    (sim_init_rows_cell_independent m m' solver k hA u0 u0' hR)
+
+/-- a recording of a compartment-indexed state reads the entry of its row when the row has that entry -/
+theorem record_of_row (m : SimModule) (u : State Float) (key : String) (idx : Nat) (x : Float)
+    (hloc : m.edgeStates.contains key = false) (hx : Row u idx key = some x) :
+    Model.Sim.record m [(key, idx)] u = [x] := by
+  unfold Row at hx
+  have hlt := (List.getElem?_eq_some_iff.mp hx).1
+  unfold Model.Sim.record Model.Sim.localInd
+  simp only [List.map_cons, List.map_nil, hloc, Bool.false_eq_true, if_false]
+  rw [Nat.min_eq_left (by omega), List.getD_eq_getElem?_getD, hx]
+  rfl
+
+/-- (C12) **a recording inside cell `k` reads the same value in both simulations** (compartment-indexed state whose array
+covers the recorded row) -/
+theorem sim_record_cell_independent (m m' : SimModule) (k : Nat) (u u' : State Float) (hR : RowsAgree m m' k u u')
+    (key : String) (i : Nat) (hi : i < nTotal (m.cells.getD k ([], [])).2) (x : Float)
+    (hloc : m.edgeStates.contains key = false) (hloc' : m'.edgeStates.contains key = false)
+    (hx : Row u ((Model.Sim.cellOffsets m).getD k 0 + i) key = some x) :
+    Model.Sim.record m [(key, (Model.Sim.cellOffsets m).getD k 0 + i)] u =
+      Model.Sim.record m' [(key, (Model.Sim.cellOffsets m').getD k 0 + i)] u' := by
+  have hx' : Row u' ((Model.Sim.cellOffsets m').getD k 0 + i) key = some x := by
+    rw [← hR i hi]; exact hx
+  rw [record_of_row m u key _ x hloc hx, record_of_row m' u' key _ x hloc' hx']
+
+end rows
+
 /-! ### non-vacuity -/
 
 /-- the example module of `C08_Sim` has no synapses, so `sim_no_synapses`, `sim_step_v_blocks` apply to it; with itself as the
@@ -523,5 +947,13 @@ example (solver : String) (dt : Float) (u : State Float) :
     getArr (Model.Sim.step exM solver dt u []) "v" =
       (List.range exM.cells.length).flatMap (stepBlock exM solver dt u []) :=
   sim_step_v_blocks exM solver dt u [] rfl (fun _ h => by simp at h)
+
+/-- the structural hypotheses of the run theorems hold for the example module (with itself as the second module) -/
+example : solverOkB exM "bwd_euler" = true ∧ solverOkB exM "fwd_euler" = true ∧ offsetsOkB exM = true := by decide
+
+example : CellAgree exM exM "bwd_euler" 0 :=
+  { syn := rfl, syn' := rfl, sol := by decide, sol' := by decide, off := by decide, off' := by decide,
+    hk := by decide, hk' := by decide, cell := rfl, inb := by decide, inb' := by decide,
+    rows := fun _ _ => ⟨rfl, rfl⟩ }
 
 end JaxleyVerif.Props.Sim
